@@ -76,6 +76,18 @@ func (sh *SearchHistory) Load() error {
 	}
 
 	err = json.Unmarshal(data, sh)
+	// The file decides Entries and MaxSize, so make them sane again whatever it
+	// held (hand edit, older version, damaged file decoded half-way): a
+	// non-positive bound would make AddEntry drop or mis-slice every entry.
+	if sh.MaxSize <= 0 {
+		sh.MaxSize = 100 // Default max size
+	}
+	if sh.Entries == nil {
+		sh.Entries = make([]SearchEntry, 0)
+	}
+	if len(sh.Entries) > sh.MaxSize {
+		sh.Entries = sh.Entries[len(sh.Entries)-sh.MaxSize:]
+	}
 	if err != nil {
 		return fmt.Errorf("failed to parse history file: %w", err)
 	}
